@@ -610,7 +610,14 @@ def run(ck):
             elif not over and got != true and not any(e[0] in ("drop", "sendclose") for e in r["events"]):
                 ck.violation("decompress-cap/within-cap-lost", f"[{fw}] messages within the cap were not all delivered: {len(got)}/{len(true)}",
                              {"fw": fw, "case": c, "observed": r}, found_input=True)
-            if sum(len(x) for x in c["chunks"]) <= 2400 and sum(len(t) for t in r["tape"]) <= 6000 and not esc:
+            if not over and r.get("codec_raised") and not esc:
+                ck.violation(f"{'decompress-within-cap' if m['cap'] is not None else 'decompress-nocap'}/codec-raised-on-valid-data",
+                             f"[{fw}] permessage-deflate max_message_size={m['cap']}: every message is valid deflate data within the cap, the "
+                             f"decompressor raised {r['codec_raised'][:2]} and the connection was failed",
+                             {"fw": fw, "case": c, "observed": {k: (v if k != 'tape' else '...') for k, v in r.items()}, "true_messages": m["msgs"]}, found_input=True)
+            # runs in which the real codec raised have no model answer (the Gallina decompressor is a total oracle): they are judged
+            # above (delivered = prefix of the true messages) and, for streams without a cap, by C02's codec_error_stage
+            if sum(len(x) for x in c["chunks"]) <= 2400 and sum(len(t) for t in r["tape"]) <= 6000 and not esc and not r.get("codec_raised"):
                 model_cases.append((fw, c, r))
 
     # ---- the Gallina model on the sample
